@@ -220,6 +220,13 @@ def run(tier, seed):
     except rsparse.Unsupported as e:
         ob2.update({"verdict": "inconclusive", "message": "encoder met source it cannot encode: %s" % e})
     obligations.append(ob2)
+    ob3 = record_length_obligation(prog, tier)
+    if ob3.get("verdict") == "violation":
+        from lib import native as _n
+        pth = _n.write_replay("C05", "c05", "model", [], {"engine": "smt", "mode": "model-only", "obligation": ob3["harness"], "message": ob3["message"], "model": ob3.get("counterexample")})
+        ob3["replay_path"] = pth
+        ob3["replay"] = {"path": pth, "outcome": "model-only", "message": "term, vote and record length for the index file"}
+    obligations.append(ob3)
     info["wall_s"] = round(time.time() - t0, 1)
     return {"obligations": obligations, "info": info}
 
@@ -455,3 +462,86 @@ if __name__ == "__main__":
     for ob in r["obligations"]:
         print(ob["harness"], ob.get("verdict"), str(ob.get("message", ""))[:400], ob.get("counterexample"), ob.get("queries"), ob.get("solver_s"), str(ob.get("sample"))[:300])
     print(r["info"])
+
+
+def record_length_obligation(prog, tier):
+    """s05_3: the stored index record at and around the lengths where its length prefix changes shape (127/128/129, 255/256/257 bytes,
+    16383/16384): a node address of chosen length pads the record; save, restart, read back."""
+    import time as _t
+    t0 = _t.time()
+    ob = {"engine": "smt", "harness": "s05_3_record_length_boundaries", "encodes_files": FILES,
+          "encodes": ["RaftIndexInnerManager::{init,write_index}", "RaftIndexDto::to_record_do", "From<RaftIndex> for RaftIndexDto", "RaftIndex/NodeAddrItem message code", "FileMessageReader::{read_next,read_len}"],
+          "bound": "term, vote < 128 (symbolic), one node address whose length ranges over 100..=135, 236..=262 and 16360..=16390 so that the record's body length crosses 128, 256 and 16384; save, restart, read back",
+          "queries": 0, "solver_s": 0.0, "distinct": 0}
+    try:
+        it, fs = make(prog)
+        init_fn = prog.methods[("RaftIndexInnerManager", "init")]
+        term, vote, lv = z3.BitVec("term", 64), z3.BitVec("vote", 64), z3.BitVec("address_length_choice", 16)
+        lens = list(range(100, 136)) + list(range(236, 263)) + (list(range(16360, 16391)) if tier != "quick" else [16372, 16373, 16374, 16375, 16376, 16377, 16378])
+        seen = {}
+
+        def thunk():
+            fs.files.clear()
+            m = it._invoke(init_fn, ["idx"], self_ty="RaftIndexInnerManager")
+            if not (isinstance(m, Enum) and m.variant == "Ok"):
+                return ("violation", "a fresh index file cannot be initialised", "init", 0)
+            m = m.payload[0]
+            L = lens[-1]
+            for k_, o in enumerate(lens[:-1]):
+                if it.branch(lv == k_):
+                    L = o
+                    break
+            dto = empty_dto(term, vote)
+            dto["node_addrs"] = {2: "a" * L}
+            dto["member"] = [1, 2]
+            it.call_method("RaftIndexInnerManager", "write_index", m, [dto])
+            body = len(fs.files["idx"]) - 8
+            m2 = it._invoke(init_fn, ["idx"], self_ty="RaftIndexInnerManager")
+            if not (isinstance(m2, Enum) and m2.variant == "Ok"):
+                return ("violation", "an index file whose record occupies %d bytes does not reopen" % body, "reopen-fails", body)
+            ri = m2.payload[0]["raft_index"]
+            addr = ri["node_addrs"].get(2)
+            if addr is None or len(addr) != L or list(ri["member"]) != [1, 2]:
+                return ("violation", "an index record of %d bytes (address of %d characters) reads back with address %s and members %s" % (body, L, "missing" if addr is None else "of %d characters" % len(addr), list(ri["member"])),
+                        "addr-lost", body)
+            for a, b_, what in ((ri["current_term"], term, "term"), (ri["voted_for"], vote, "vote")):
+                cond = z3.simplify(rseval.to_bv(a) != b_)
+                if not z3.is_false(cond) and it._feasible(cond):
+                    it.pc.append(cond)
+                    return ("violation", "an index record of %d bytes reads back with another %s" % (body, what), what + "-lost", body)
+            seen[body] = True
+            return ("ok", None, None, body)
+        rng = [z3.ULT(term, 128), z3.ULT(vote, 128)]
+        it.solver.push()
+        it.solver.add(*rng)
+        paths = it.explore(thunk, max_paths=20000)
+        it.solver.pop()
+        viol = None
+        s = z3.Solver()
+        s.add(*rng)
+        for pc, r, exc in paths:
+            if exc is not None:
+                viol = {"message": "panic while writing / reopening the index file: %s" % exc, "tags": ["panic"], "model": {}}
+                break
+            if r[0] == "violation":
+                s.push()
+                s.add(*pc)
+                if s.check() == z3.sat:
+                    m_ = s.model()
+                    viol = {"message": r[1], "tags": [r[2]], "model": {"term": m_.eval(term, model_completion=True).as_long(), "vote": m_.eval(vote, model_completion=True).as_long(), "record_bytes": r[3]}}
+                s.pop()
+                if viol:
+                    break
+        ob["queries"] = it.queries
+        ob["solver_s"] = round(_t.time() - t0, 1)
+        lens_seen = sorted(seen)
+        ob["sample"] = {"paths_explored": len(paths), "record_lengths_covered": [lens_seen[0], lens_seen[-1]] if lens_seen else [], "boundaries_hit": [b for b in (127, 128, 129, 255, 256, 257) if any((x - 2) == b or (x - 1) == b or x == b for x in lens_seen)]}
+        if viol:
+            ob.update({"verdict": "violation", "message": viol["message"], "tags": viol["tags"], "counterexample": viol["model"]})
+        elif len(lens_seen) < 20:
+            ob.update({"verdict": "inconclusive", "message": "only %d record lengths explored" % len(lens_seen)})
+        else:
+            ob.update({"verdict": "discharged", "distinct": len(paths)})
+    except rsparse.Unsupported as e:
+        ob.update({"verdict": "inconclusive", "message": "encoder met source it cannot encode: %s" % e})
+    return ob
